@@ -95,7 +95,7 @@ func runC15(rc *RC) {
 		// steps these pile up unscheduled and each step has to look at all of them
 		rc.S.Strat, strat = simrt.StratUniform, "uniform(wrap)"
 	}
-	acceptMode := ch.Int("workload", 6) // 0-2 Accept, 3-4 Expect, 5 no listener
+	acceptMode := ch.Int("workload", 7) // 0-2 Accept, 3-4 Expect, 5 no listener, 6 an Expect that is given up, then Accept
 	reverse := ch.Chance("workload", 1, 3) && !wrap
 	payload := genPayload(rc, block)
 	if wrap {
@@ -185,13 +185,30 @@ func runC15(rc *RC) {
 
 	var lst *ibb.Listener
 	var accT *simrt.Task
+	expectGivenUp := false
+	accTask := func() *simrt.Task { return accT }
 	if acceptMode != 5 {
 		lst = hB.Listen(p.B) // the listener exists before anybody opens a stream
 		accT = rc.Spawn("acceptor", func() {
 			l := lst
-			if acceptMode >= 3 {
+			switch {
+			case acceptMode == 6:
+				// the application stops waiting for the announced stream (its context ends) and goes back to accepting
+				// whatever comes; the stream is opened afterwards all the same
+				ectx, ecancel := context.WithCancel(ctx)
+				rc.Spawn("expect-canceller", func() {
+					simrt.WaitUntil("expect-blocked", func() bool { return strings.HasPrefix(accTask().Site, "blocked:ibb/listen.go") || accTask().Done() })
+					ecancel()
+				})
+				_, eerr := l.Expect(ectx, jid.JID{}, sid)
+				if eerr == nil {
+					rc.Failf("C15.c1", "expect-returned-without-open", "Expect returned a connection although nobody had opened a stream")
+				}
+				expectGivenUp = true
+				connB, acceptErr = l.Accept()
+			case acceptMode >= 3:
 				connB, acceptErr = l.Expect(ctx, jid.JID{}, sid)
-			} else {
+			default:
 				connB, acceptErr = l.Accept()
 			}
 			acceptDone = true
@@ -223,7 +240,9 @@ func runC15(rc *RC) {
 	opener := rc.Spawn("opener", func() {
 		if accT != nil {
 			// the application is inside Accept / Expect before the peer opens the stream
-			simrt.WaitUntil("opener:acceptor-ready", func() bool { return strings.HasPrefix(accT.Site, "blocked:ibb/listen.go") || accT.Done() })
+			simrt.WaitUntil("opener:acceptor-ready", func() bool {
+				return (strings.HasPrefix(accT.Site, "blocked:ibb/listen.go") && (acceptMode != 6 || expectGivenUp)) || accT.Done()
+			})
 		}
 		octx, ocancel := context.WithTimeout(ctx, 30*time.Second)
 		defer ocancel()
